@@ -1,5 +1,152 @@
 import KrroodVerif.Sexp
+import KrroodVerif.Model.ClassDiagram
+/-!
+Driver for C17. One case =
+
+`(cd (defs (c <id> (bases <id>*) (f <priv 0|1> <idx> <ann>)*)*) (order <id>*) (ops <op>*) …)`
+
+`<ann>` = `int|float|str|bool|datetime | (cls i) | (enum i) | (opt typing|unionNone|noneFirst|pipe a) |
+(cont list|set|tuple|sequence|blist|bset|btuple a) | (type a) | (fwd a) | (union a b T|F)`;
+`<op>` = `(q d k) | (render d T|F) | (copy d) | (sub d T|F)`.
+Further items (`(future b)`, `(mods n)`, `(enums n)`) only steer how the harness renders the Python source.
+
+Observation (the same text is produced from the real `ClassDiagram` by harness/props/c17.py):
+`N[nodes] I[base>sub] A[owner.field>target] F[owner.field:<flags>] V[changes after op 1|…]`, every list sorted.
+-/
 namespace KrroodVerif.Drive.C17
-/-- stub: replaced when the model for C17 is built -/
-def run (_ : Sexp) : String := "model=unimplemented\tspec=unimplemented\ttrig="
+open KrroodVerif.CD
+
+/-- the quirk setting of the code as it is now; switch a flag off in the commit that marks its finding fixed -/
+def current : Quirks := { shallowCopy := false, singleUnwrap := true, pipeNotOptional := true, argZero := true }
+
+partial def parseAnn : Sexp → Option Ann
+  | .atom "int" => some (.builtin .int)
+  | .atom "float" => some (.builtin .float)
+  | .atom "str" => some (.builtin .str)
+  | .atom "bool" => some (.builtin .bool)
+  | .atom "datetime" => some (.builtin .datetime)
+  | .list [.atom "cls", i] => i.asNat?.map .cls
+  | .list [.atom "enum", i] => i.asNat?.map .enum
+  | .list [.atom "opt", .atom st, a] => do
+    let st ← (match st with
+      | "typing" => some OptStyle.typing | "unionNone" => some .unionNone
+      | "noneFirst" => some .noneFirst | "pipe" => some .pipe | _ => none)
+    let a ← parseAnn a
+    pure (.optional st a)
+  | .list [.atom "cont", .atom k, a] => do
+    let k ← (match k with
+      | "list" => some Kind.list | "set" => some .set | "tuple" => some .tuple | "sequence" => some .sequence
+      | "blist" => some .blist | "bset" => some .bset | "btuple" => some .btuple | _ => none)
+    let a ← parseAnn a
+    pure (.container k a)
+  | .list [.atom "type", a] => (parseAnn a).map .typeOf
+  | .list [.atom "fwd", a] => (parseAnn a).map .fwd
+  | .list [.atom "union", a, b, n] => do
+    let a ← parseAnn a
+    let b ← parseAnn b
+    let n ← n.asBool?
+    pure (.union a b n)
+  | _ => none
+
+def parseField : Sexp → Option Field
+  | .list [.atom "f", p, i, a] => do
+    let p ← p.asNat?
+    let i ← i.asNat?
+    let a ← parseAnn a
+    pure ⟨⟨p != 0, i⟩, a⟩
+  | _ => none
+
+def parseClass : Sexp → Option ClassDef
+  | .list (.atom "c" :: id :: .list (.atom "bases" :: bs) :: fs) => do
+    let id ← id.asNat?
+    let bs ← bs.mapM Sexp.asNat?
+    let fs ← fs.mapM parseField
+    pure ⟨id, bs, fs⟩
+  | _ => none
+
+def parseOp : Sexp → Option Op
+  | .list [.atom "q", d, k] => do pure (.query (← d.asNat?) (← k.asNat?))
+  | .list [.atom "render", d, b] => do pure (.render (← d.asNat?) (← b.asBool?))
+  | .list [.atom "copy", d] => do pure (.copy (← d.asNat?))
+  | .list [.atom "sub", d, b] => do pure (.sub (← d.asNat?) (← b.asBool?))
+  | _ => none
+
+def cname (i : Nat) : String := s!"C{i}"
+def fname (f : FName) : String := (if f.priv then "_f" else "f") ++ toString f.idx
+
+def leafName : Leaf → String
+  | .builtin .int => "int" | .builtin .float => "float" | .builtin .str => "str" | .builtin .bool => "bool"
+  | .builtin .datetime => "datetime" | .noneType => "None" | .cls i => cname i | .enum i => s!"E{i}" | .other => "?"
+
+def bit (b : Bool) : String := if b then "1" else "0"
+def tri : Tri → String | .t => "1" | .f => "0" | .err => "E"
+
+def showFlags (fl : Flags) (ep : Leaf) : String :=
+  bit fl.builtin ++ bit fl.optional ++ tri fl.enum ++ bit fl.container ++ bit fl.oneToOne ++ bit fl.oneToMany
+    ++ bit fl.typeValued ++ ":" ++ leafName ep
+
+/-- per-field observation: all seven classifications and the endpoint on `plain` annotations, `optional` only on
+deeper nestings and general unions (see `CD.plain`) -/
+def showField (c : Nat) (f : Field) (fl : Flags) (ep : Leaf) : String :=
+  cname c ++ "." ++ fname f.name ++ ":" ++ (if plain f.ann then showFlags fl ep else "o=" ++ bit fl.optional)
+
+def showEdgesI (g : Graph) : String :=
+  showList (sortStrings (g.edges.filterMap fun e => match e.kind with
+    | .inh => some (cname e.src ++ ">" ++ cname e.dst) | _ => none))
+
+def showEdgesA (g : Graph) : String :=
+  showList (sortStrings (g.edges.filterMap fun e => match e.kind with
+    | .assoc f => some (cname e.src ++ "." ++ fname f ++ ">" ++ cname e.dst) | _ => none))
+
+def showGraph (g : Graph) : String :=
+  "N" ++ showList (sortStrings (g.nodes.map cname)) ++ " I" ++ showEdgesI g ++ " A" ++ showEdgesA g
+
+def showChanges (chs : List (List (Nat × Option Graph))) : String :=
+  "V[" ++ "|".intercalate (chs.map fun ch =>
+    ";".intercalate (ch.map fun p => s!"d{p.1}=" ++ (match p.2 with | some g => showGraph g | none => "gone"))) ++ "]"
+
+def showFields (w : World) (nodes : List Nat) (fl : Ann → Flags) (ep : Ann → Leaf) : String :=
+  "F" ++ showList (sortStrings (nodes.flatMap fun c => (w.publicFields c).map fun f => showField c f (fl f.ann) (ep f.ann)))
+
+/-- the observation of the code under quirk setting `q` -/
+def observe (q : Quirks) (w : World) (order : List Nat) (ops : List Op) : String :=
+  let g := build q w order
+  showGraph g ++ " " ++ showFields w g.nodes (flags q) (endpoint q) ++ " " ++ showChanges (changes q (Store.init g) ops)
+
+/-- the observation the property demands -/
+def observeSpec (w : World) (order : List Nat) (ops : List Op) : String :=
+  let g := specBuild w order
+  showGraph g ++ " " ++ showFields w g.nodes specFlags specEndpoint ++ " " ++ showChanges (specChanges ops)
+
+def anyPublicField (w : World) (order : List Nat) (p : Ann → Bool) : Bool :=
+  (nodesOf order).any fun c => (w.publicFields c).any fun f => p f.ann
+
+/-- Lean-defined triggers of the open findings (the same predicates the `…_partial` theorems exclude) -/
+def triggers (w : World) (order : List Nat) (ops : List Op) : List String :=
+  (if current.shallowCopy && touched current (Store.init (build current w order)) ops then ["F-C17-1"] else [])
+  ++ (if current.singleUnwrap && anyPublicField w order nested then ["F-C17-2"] else [])
+  ++ (if (current.pipeNotOptional || current.argZero) && anyPublicField w order oddOptional then ["F-C17-3"] else [])
+
+/-- all settings obtained from `current` by switching some of its quirks off (partially repaired trees) -/
+def alternatives : List Quirks :=
+  let bs := [true, false]
+  (bs.flatMap fun a => bs.flatMap fun b => bs.flatMap fun c => bs.map fun d =>
+    ({ shallowCopy := current.shallowCopy && a, singleUnwrap := current.singleUnwrap && b,
+       pipeNotOptional := current.pipeNotOptional && c, argZero := current.argZero && d } : Quirks))
+
+def run (s : Sexp) : String :=
+  match s with
+  | .list (.atom "cd" :: items) =>
+    match Sexp.field? items "defs", Sexp.field? items "order", Sexp.field? items "ops" with
+    | some ds, some ord, some ops =>
+      match ds.mapM parseClass, ord.mapM Sexp.asNat?, ops.mapM parseOp with
+      | some ds, some ord, some ops =>
+        let w : World := ⟨ds⟩
+        let main := observe current w ord ops
+        let alts := dedupStrings ((alternatives.map fun q => observe q w ord ops).filter (· != main))
+        let altFields := (List.zip (List.range alts.length) alts).map fun p => s!"\tmodel_alt{p.1}={p.2}"
+        s!"model={main}\tspec={observeSpec w ord ops}\ttrig={",".intercalate (triggers w ord ops)}" ++ "".intercalate altFields
+      | _, _, _ => "error=bad-case"
+    | _, _, _ => "error=bad-case"
+  | _ => "error=bad-case"
 end KrroodVerif.Drive.C17
